@@ -40,7 +40,14 @@ def gen_ops(rng, font, nops):
         elif k < 0.42: ops.append('dseg:%d' % rng.randrange(3))
         elif k < 0.50: ops.append('font:%d:%s' % (rng.randrange(2), rng.choice(('12', '96', '0.5', '2048'))))
         elif k < 0.54: ops.append('dfont:%d' % rng.randrange(2))
-        elif k < 0.62: ops.append('fv:%d:%s' % (rng.randrange(2), rng.choice(('0', '656e6720', '76697420', '6b686b20', 'ffffffff'))))
+        elif k < 0.62:
+            tag = rng.choice(('0', '656e6720', '76697420', '6b686b20', 'ffffffff'))
+            ls = sill_langs(font)
+            if ls and rng.random() < 0.6:            # a language the font's Sill table lists, zero- or space-padded
+                import struct
+                b = struct.pack('>I', rng.choice(ls)).rstrip(b'\0')
+                tag = (b + rng.choice((b'\0', b' ')) * 4)[:4].hex()
+            ops.append('fv:%d:%s' % (rng.randrange(2), tag))
         elif k < 0.68: ops.append('setfv:%d:%d:%d' % (rng.randrange(2), rng.randrange(12), rng.choice((0, 1, 2, 200, 65535))))
         elif k < 0.70: ops.append('dfv:%d' % rng.randrange(2))
         elif k < 0.82: ops.append('label:%d:%d:%d' % (rng.randrange(14), rng.choice((0x409, 0x409, 0, 0x40c, 1)), rng.choice((8, 16, 32))))
@@ -80,8 +87,34 @@ def gen_api(chk, n):
             # directed: preloadAll with an optional table absent, then the queries that would want it
             opts = rng.choice((6, 7)); corrupt = 'drop:%s' % rng.choice(('name', 'name', 'Sill', 'Feat', 'OS/2', 'hmtx', 'glyf', 'loca')); mode = 'cb'
             ops = ['label:%d:1033:8' % rng.randrange(4), 'info'] + ops[:4] + ['vlabel:%d:0:1033:16' % rng.randrange(4)]
+        elif rng.random() < 0.12:
+            # directed: every feature hidden (a legal Feat table; features are then reachable by id only), preloadAll, labels by id
+            ids = feat_ids(font)
+            if ids:
+                opts = rng.choice((6, 7, 6, 7, 2, 4, 0)); corrupt = 'hideall'; mode = rng.choice(('cb', 'cb', 'cbnorel'))
+                ops = ['info'] + ['flabel:%x:%d:%d' % (rng.choice(ids), rng.choice((1033, 0, 1036)), rng.choice((8, 16, 32))) for _ in range(rng.randrange(1, 4))] + ops[:3] + ['info']
         out.append('a%d api %s %d %s %s %s' % (i, font, opts, mode, corrupt, ' '.join(ops)))
     return out
+
+
+_featids = {}
+_sill = {}
+
+
+def sill_langs(font):
+    if font not in _sill:
+        from props import fontkit as K
+        try: _sill[font] = K.sill_langs(open(os.path.join(vlib.REPO, 'tests/fonts', font), 'rb').read())
+        except Exception: _sill[font] = []
+    return _sill[font]
+
+
+def feat_ids(font):
+    if font not in _featids:
+        from props import fontkit as K
+        try: _featids[font] = [r[1] for r in K.feat_records(open(os.path.join(vlib.REPO, 'tests/fonts', font), 'rb').read())]
+        except Exception: _featids[font] = []
+    return _featids[font]
 
 
 def judge_api(chk, c, i, m, classes, stats):
